@@ -11,10 +11,13 @@ Record obs := { o_cursor : N;                 (* m.daHeight after the item *)
                 o_calls : list call;          (* GetIDs / Get calls seen by the DA double during the item *)
                 o_hev : list (N * N);         (* (header id, daHeight) taken from headerInCh after the item *)
                 o_dev : list (N * N);         (* (data id, daHeight) taken from dataInCh after the item *)
+                o_dtx : list (list tx);       (* per data event, in the same order: the transaction list it carried
+                                                 (the harness numbers the byte strings of the case, 0 = the zero-length one) *)
                 o_res : N }.                  (* IProc: 0 nil, 1 from-the-future error, 2 other error, 3 panic;
                                                  ISignal: 3 if the loop goroutine is dead after the item, else 0 *)
 
-Record rcase := { rc_cfg : cfg; rc_da : list hinfo; rc_hist : list item; rc_obs : list obs;
+Record rcase := { rc_cfg : cfg; rc_da : list hpost;   (* the DA as POSTED: Model/Retriever.v hpost *)
+                   rc_hist : list item; rc_obs : list obs;
                   rc_marks : list (bool * N * option N) }.   (* (is data, id, GetDAIncludedHeight) at the end *)
 
 Definition res_code (r : presult) : N := match r with PNil => 0 | PFuture => 1 | PErr => 2 end.   (* 3 = panic: never predicted *)
@@ -24,20 +27,28 @@ Definition hev_of (evs : list event) : list (N * N) :=
 Definition dev_of (evs : list event) : list (N * N) :=
   flat_map (fun e => match e with EData i d => [(i, d)] | _ => [] end) evs.
 
-Definition mk_obs (it : item) (st : state) (recs : list iter_rec) : obs :=
+Definition dtx_of (evs : list pevent) : list (list tx) :=
+  flat_map (fun e => match e with PEData _ _ txs => [txs] | _ => [] end) evs.
+
+(* the transaction lists handed over by the iterations [recs]: Model/Retriever.v handed (decoder as it is) *)
+Definition dtx_recs (c : cfg) (pda : list hpost) (recs : list iter_rec) : list (list tx) :=
+  dtx_of (flat_map (handed DCopyAll c pda) recs).
+
+Definition mk_obs (c : cfg) (pda : list hpost) (it : item) (st : state) (recs : list iter_rec) : obs :=
   let evs := flat_map i_events recs in
   {| o_cursor := s_cursor st; o_calls := flat_map i_calls recs; o_hev := hev_of evs; o_dev := dev_of evs;
+     o_dtx := dtx_recs c pda recs;
      o_res := match it with
               | IProc => match recs with [r] => res_code (i_result r) | _ => 99 end
               | ISignal => 0
               end |}.
 
-Fixpoint run_obs (c : cfg) (st : state) (h : list item) : list obs * list mark :=
+Fixpoint run_obs (c : cfg) (pda : list hpost) (st : state) (h : list item) : list obs * list mark :=
   match h with
   | [] => ([], [])
   | it :: r => let '(st1, recs) := step c st it in
-               let '(os, ms) := run_obs c st1 r in
-               (mk_obs it st1 recs :: os, flat_map i_marks recs ++ ms)
+               let '(os, ms) := run_obs c pda st1 r in
+               (mk_obs c pda it st1 recs :: os, flat_map i_marks recs ++ ms)
   end.
 
 Definition call_eqb (a b : call) : bool :=
@@ -67,7 +78,8 @@ Fixpoint last_mark (isd : bool) (id : N) (ms : list mark) (acc : option N) : opt
 Definition optN_eqb (a b : option N) : bool :=
   match a, b with Some x, Some y => x =? y | None, None => true | _, _ => false end.
 
-(* per item: 1 cursor, 2 calls, 3 header events, 4 data events, 5 result class; 6 = number of items; 7 = marks *)
+(* per item: 1 cursor, 2 calls, 3 header events, 4 data events, 5 result class, 8 the transaction lists carried
+   by the data events differ from the posted ones; 6 = number of items; 7 = marks *)
 Fixpoint obs_diff (i : N) (m o : list obs) : list N :=
   match m, o with
   | [], [] => []
@@ -77,12 +89,13 @@ Fixpoint obs_diff (i : N) (m o : list obs) : list N :=
       (if list_eqb pair_eqb (o_hev x) (o_hev y) then [] else [100 * i + 3]) ++
       (if list_eqb pair_eqb (o_dev x) (o_dev y) then [] else [100 * i + 4]) ++
       (if o_res x =? o_res y then [] else [100 * i + 5]) ++
+      (if list_eqb txs_eqb (o_dtx x) (o_dtx y) then [] else [100 * i + 8]) ++
       obs_diff (i + 1) m' o'
   | _, _ => [6]
   end.
 
 Definition check_case (c : rcase) : list N :=
-  let '(os, ms) := run_obs (rc_cfg c) (init (rc_cfg c) (rc_da c)) (rc_hist c) in
+  let '(os, ms) := run_obs (rc_cfg c) (rc_da c) (init (rc_cfg c) (da_of DCopyAll (rc_da c))) (rc_hist c) in
   obs_diff 0 os (rc_obs c) ++
   (if forallb (fun e => let '(isd, id, v) := e in optN_eqb (last_mark isd id ms None) v) (rc_marks c) then [] else [7]).
 
@@ -98,11 +111,18 @@ Definition mismatches := mismatches_from 0.
 
 (* compact constructors for the generated cases *)
 Definition E (nf fut : bool) : daerr := {| e_nf := nf; e_fut := fut |}.
-Definition HI (bl : list blob) (outs : list outcome) : hinfo := {| h_blobs := bl; h_outs := outs |}.
-Definition OB (cur : N) (calls : list call) (hev dev : list (N * N)) (res : N) : obs :=
-  {| o_cursor := cur; o_calls := calls; o_hev := hev; o_dev := dev; o_res := res |}.
+Definition HI (posts : list post) (outs : list outcome) : hpost := {| hp_posts := posts; hp_outs := outs |}.
+Definition OB (cur : N) (calls : list call) (hev dev : list (N * N)) (dtx : list (list tx)) (res : N) : obs :=
+  {| o_cursor := cur; o_calls := calls; o_hev := hev; o_dev := dev; o_dtx := dtx; o_res := res |}.
 (* n junk blobs of kind k (bulk filler for heights with more than batch_size ids) *)
-Definition JN (k : N) (n : nat) : list blob := repeat (BJunk k) n.
+Definition JN (k : N) (n : nat) : list post := repeat (PJunk k) n.
+(* a proposer-signed header *)
+Definition PH (id : N) : list post := [PHeader id].
+(* a SignedData blob built by the harness with real keys: the signature is made over exactly the posted
+   transactions [txs]; meta = Metadata present; signer = signed with the proposer's key (false: a foreign key
+   under the proposer's address) *)
+Definition PD (id : N) (meta signer : bool) (txs : list tx) : list post :=
+  [PSigned {| sp_id := id; sp_wire := txs; sp_meta := meta; sp_signer := signer; sp_sigfor := Some txs |}].
 
 (* ==== ticks during catch-up: correspondence check for the two-channel loop (Model/Retriever.v, lturn) ====
    The harness wakes the real RetrieveLoop with one signal while it is quiescent, and its DA double sends
@@ -114,7 +134,7 @@ Definition JN (k : N) (n : nat) : list blob := repeat (BJunk k) n.
    served, token re-armed after every passed height — explains exactly the calls that were seen. *)
 Record tseg := { ts_seen : list (bool * bool);  (* per GetIDs call: (len(retrieveCh) = 1 on entry, tick sent during the call) *)
                  ts_obs : obs }.                (* at quiescence: cursor, all DA calls, events; o_res 3 = loop dead, else 0 *)
-Record tcase := { tc_cfg : cfg; tc_da : list hinfo; tc_segs : list tseg }.
+Record tcase := { tc_cfg : cfg; tc_da : list hpost; tc_segs : list tseg }.
 
 Definition n_getids (r : iter_rec) : nat :=
   length (filter (fun cl => match cl with CGetIDs _ => true | _ => false end) (i_calls r)).
@@ -151,7 +171,7 @@ Fixpoint drive (fuel : nat) (c : cfg) (ls : lstate) (seen : list (bool * bool)) 
            end
   end.
 
-Fixpoint run_segs (i : N) (c : cfg) (ls : lstate) (segs : list tseg) : list N :=
+Fixpoint run_segs (i : N) (c : cfg) (pda : list hpost) (ls : lstate) (segs : list tseg) : list N :=
   match segs with
   | [] => []
   | sg :: r =>
@@ -161,15 +181,15 @@ Fixpoint run_segs (i : N) (c : cfg) (ls : lstate) (segs : list tseg) : list N :=
       let recs := rev racc in
       let evs := flat_map i_events recs in
       let m := {| o_cursor := s_cursor (l_scan ls1); o_calls := flat_map i_calls recs;
-                  o_hev := hev_of evs; o_dev := dev_of evs; o_res := 0 |} in
+                  o_hev := hev_of evs; o_dev := dev_of evs; o_dtx := dtx_recs c pda recs; o_res := 0 |} in
       match errs with
-      | [] => obs_diff i [m] [ts_obs sg] ++ run_segs (i + 1) c ls1 r
+      | [] => obs_diff i [m] [ts_obs sg] ++ run_segs (i + 1) c pda ls1 r
       | _ => map (fun e => 100 * i + e) errs      (* the model cannot follow any further *)
       end
   end.
 
 Definition check_tcase (t : tcase) : list N :=
-  run_segs 0 (tc_cfg t) (linit (tc_cfg t) (tc_da t) false) (tc_segs t).
+  run_segs 0 (tc_cfg t) (tc_da t) (linit (tc_cfg t) (da_of DCopyAll (tc_da t)) false) (tc_segs t).
 
 Fixpoint tmismatches_from (i : N) (cs : list tcase) : list (N * list N) :=
   match cs with
@@ -181,6 +201,6 @@ Fixpoint tmismatches_from (i : N) (cs : list tcase) : list (N * list N) :=
   end.
 
 (* compact constructors for the generated tick cases *)
-Definition HE : hinfo := HI [] [OOk].                              (* an empty height, served at once *)
+Definition HE : hpost := HI [] [OOk].                              (* an empty height, served at once *)
 Definition SN (n : nat) : list (bool * bool) := repeat (false, false) n.   (* n calls: nothing in retrieveCh, no tick *)
 Definition GI (h : N) (n : nat) : list call := map (fun i => CGetIDs (h + N.of_nat i)) (seq 0 n).   (* GetIDs h .. h+n-1 *)
